@@ -1,1 +1,80 @@
 // ---- lemmas of the journal unit (C11): spec level only ----------------------------------------------------------------
+// What the code-level clauses mean for the property's "tamper-evident": the accepted history is a FUNCTION of the bytes
+// (unique decoding), so the loader's verdict on a corrupted file is the verdict of `journal_of` on that file.
+
+// two entries with the same content (StateEntry holds Vecs: compare through the views)
+pub open spec fn same_entry(a: StateEntry, b: StateEntry) -> bool {
+    a.index == b.index && a.term == b.term && a.leader_id == b.leader_id && a.version == b.version && a.flags == b.flags
+    && a.timestamp.0 == b.timestamp.0 && a.user_id == b.user_id && a.checksum == b.checksum
+    && a.context@ == b.context@ && a.command@ == b.command@
+}
+pub open spec fn same_history(a: Seq<StateEntry>, b: Seq<StateEntry>) -> bool {
+    a.len() == b.len() && forall|i: int| 0 <= i < a.len() ==> same_entry(#[trigger] a[i], b[i])
+}
+
+// converse of lemma_entry_at: the bytes `to_bytes` writes carry every field at the offset where the loader reads it
+pub proof fn lemma_enc_fields(e: StateEntry, rest: Seq<u8>)
+    requires e.context@.len() <= u32::MAX,
+    ensures entry_at(enc(e) + rest, 0, e),
+{
+    lemma_le_facts();
+    let s = enc(e) + rest;
+    let cl = e.context@.len() as int;
+    let ml = e.command@.len() as int;
+    assert(s.subrange(0, 8) =~= le64(e.index));
+    assert(s.subrange(8, 16) =~= le64(e.term));
+    assert(s.subrange(16, 20) =~= le32(e.leader_id));
+    assert(s.subrange(20, 24) =~= le32(e.version));
+    assert(s.subrange(24, 32) =~= le64(e.flags));
+    assert(s.subrange(32, 40) =~= le64(e.timestamp.0));
+    assert(s.subrange(40, 44) =~= le32(e.user_id));
+    assert(s.subrange(44, 48) =~= le32(e.checksum));
+    assert(s.subrange(48, 52) =~= le32(cl as u32));
+    assert(s.subrange(52, 52 + cl) =~= e.context@);
+    assert(s.subrange(52 + cl, 52 + cl + ml) =~= e.command@);
+}
+
+// enc_all is defined from the back (append order); this is its unfolding from the front (read order)
+pub proof fn lemma_enc_all_front(es: Seq<StateEntry>)
+    requires es.len() > 0,
+    ensures enc_all(es) == enc(es[0]) + enc_all(es.skip(1)),
+    decreases es.len(),
+{
+    if es.len() == 1 {
+        assert(es.drop_last() =~= Seq::<StateEntry>::empty());
+        assert(es.skip(1) =~= Seq::<StateEntry>::empty());
+        assert(enc_all(es) =~= enc(es[0]) + enc_all(es.skip(1)));
+    } else {
+        let dl = es.drop_last();
+        lemma_enc_all_front(dl);
+        assert(es.skip(1).drop_last() =~= dl.skip(1));
+        assert(es.skip(1).last() == es.last());
+        assert(dl[0] == es[0]);
+        assert(enc_all(es) =~= enc(es[0]) + enc_all(es.skip(1)));
+    }
+}
+
+// the entry encoding is a prefix code: the first entry of a byte string is determined by the bytes
+pub proof fn lemma_prefix_code(a: StateEntry, x: Seq<u8>, b: StateEntry, y: Seq<u8>)
+    requires entry_wf(a), entry_wf(b), enc(a) + x == enc(b) + y,
+    ensures same_entry(a, b), enc(a) == enc(b), x == y,
+{
+    lemma_le_facts();
+    let s = enc(a) + x;
+    lemma_enc_fields(a, x);
+    lemma_enc_fields(b, y);
+    let cl = a.context@.len() as int;
+    assert(le32(a.context@.len() as u32) == le32(b.context@.len() as u32));
+    assert(a.context@.len() == b.context@.len());
+    let ma = a.command@.len() as int;
+    let mb = b.command@.len() as int;
+    // the length field inside the command sits at the same place of s for both
+    assert(a.command@.subrange(4, 8) =~= s.subrange(52 + cl + 4, 52 + cl + 8));
+    assert(b.command@.subrange(4, 8) =~= s.subrange(52 + cl + 4, 52 + cl + 8));
+    assert(le32((ma - 8) as u32) == le32((mb - 8) as u32));
+    assert(ma == mb);
+    lemma_entry_at(s, 0, a);
+    lemma_entry_at(s, 0, b);
+    assert(x =~= s.subrange(enc(a).len() as int, s.len() as int));
+    assert(y =~= s.subrange(enc(b).len() as int, s.len() as int));
+}
